@@ -43,7 +43,12 @@ def gen_elems(rng, n, flavor):
     if flavor == 'mixed':
         return [rng.choice([1, 'a', None, True, 2.5, [1]]) for _ in range(n)]
     if flavor == 'dicts':
-        return [{'a': rng.choice([1, 2, 3]), 'b': rng.choice(['x', 'y'])} for _ in range(n)]
+        # equal dicts written with their keys in either order are one value (for =, distinct, sets, groupBy keys, in)
+        out = []
+        for _ in range(n):
+            a, b = rng.choice([1, 2]), rng.choice(['x', 'y'])
+            out.append({'a': a, 'b': b} if rng.random() < 0.5 else {'b': b, 'a': a})
+        return out
     raise ValueError(flavor)
 
 
@@ -71,7 +76,7 @@ class Coll:
 
 
 def gen_coll(rng, flavor=None, kinds=('tuple', 'tuple', 'iter', 'iter', 'set'), maxlen=8):
-    flavor = flavor or rng.choice(['int', 'int', 'int', 'int', 'null', 'str', 'nested', 'mixed'])
+    flavor = flavor or rng.choice(['int', 'int', 'int', 'int', 'null', 'str', 'nested', 'mixed', 'dicts'])
     kind = rng.choice(kinds)
     n = rng.choice((0, 1, 2, 3, 4, 5, 8)) if maxlen >= 8 else rng.randrange(maxlen + 1)
     elems = gen_elems(rng, n, flavor)
@@ -366,6 +371,15 @@ def misc_cases(rng):
     n = rng.randrange(0, 5)
     lst = [rng.choice(ELEMS_INT) for _ in range(n)]
     v = {'c': tuple(lst)}
+    # list() / set() splice lazily produced arguments, at every depth of laziness; real lists stay elements
+    nn = [[rng.choice(ELEMS_INT) for _ in range(rng.randrange(0, 3))] for _ in range(rng.randrange(0, 4))]
+    vn = {'nn': tuple(tuple(x) for x in nn)}
+    flat = [y + 1 for x in nn for y in x]
+    yield 'list-nested-lazy', 'list($nn.select($.select($ + 1)))', vn, lambda: list(flat), False
+    yield 'list-nested-lazy-mixed', 'list(0, $nn.select($.select($ + 1)), [7])', vn, lambda: [0] + flat + [[7]], False
+    yield 'list-lazy-of-lists', 'list($nn.select($))', vn, lambda: [list(x) for x in nn], False
+    yield 'set-nested-lazy', 'set($nn.select($.select($ + 1)))', vn, lambda: set(flat), False
+    yield 'list-three-levels', 'list([$nn].select($.select($.select($ * 2))))', vn, lambda: [y * 2 for x in nn for y in x], False
     yield 'unpack', '$c.unpack(a, b) -> [$b, $a]', v, (lambda: [lst[1], lst[0]] if len(lst) == 2 else _err()), False
     yield 'unpack-nonames', '$c.unpack() -> [$1, $2]', v, (lambda: [lst[0] if n > 0 else None, lst[1] if n > 1 else None]), False
     yield 'unpack-iter', '$c.select($).unpack() -> [$1, $2]', v, (lambda: [lst[0] if n > 0 else None, lst[1] if n > 1 else None]), False
@@ -514,6 +528,8 @@ def _functions(spec, mon, rec, rng):
             flavor = None
             if s.name.startswith(('orderBy', 'max', 'min', 'sum', 'toSet', 'toDict', 'groupBy', 'distinct')):
                 flavor = rng.choice(['int', 'int', 'null', 'str'])
+                if s.name.startswith(('groupBy', 'distinct')) and rng.random() < 0.3:
+                    flavor = 'dicts'        # hashing operators on equal dicts written in either key order
             c = gen_coll(rng, flavor, kinds)
             if c.kind == 'set' and not all(isinstance(e, int) and not isinstance(e, bool) for e in c.elems):
                 # short-circuiting and erroring lambdas make results depend on set iteration order
